@@ -172,7 +172,7 @@ def build(spec, *, flavour: Flavour | None = None, typed: bool = False, name="T"
             if opts.get("nid") is not None:
                 kw["node_id"] = opts["nid"]
             if typed:
-                kw["kind"] = fresh_str(opts.get("kind") or "child")
+                kw["kind"] = fresh_str("child" if opts.get("kind") is None else opts["kind"])  # "" is a legal kind
             n = parent.add(data, **kw)
             if opts.get("meta"):
                 n.update_meta(dict(opts["meta"]))
